@@ -11,9 +11,17 @@
   update, failing/non-failing poll tick), every pair of pre-existing trace functions `h1 h2` (none, a host
   function, …), NO_TRACE on or off, every set of plugins and pending sends; for the skeleton theorems every
   environment (fault placement of either class, loop lengths, branch decisions).  No bounds.
-  Modelled, not proved: CPython's `sys.settrace`/`threading.settrace` are plain assignments of a process-wide
-  slot; the host does not change the trace functions itself between `start` and `shutdown`; `Thread.join`
-  returns once `_target` ends.
+  Modelled, not proved: `sys.settrace` is a plain assignment of the CALLING thread's slot (`World.sysHook` = the slot
+  of the thread that calls `start`/`shutdown`; `Lifecycle.MT` has one slot per thread), `threading.settrace` of one
+  process-wide slot; the host does not change the trace functions itself between `start` and `shutdown`;
+  `Thread.join` returns once `_target` ends.
+  Limits, stated here rather than hidden in the model:
+  * "restored exactly" holds for the thread that called BOTH `start` and `shutdown` (`c14_restore_partial`, hypothesis
+    `SameThread`); with `shutdown` called on another thread it is false of the code — witness theorem
+    `c14_other_thread_witness`, known finding `C14/shutdown-on-another-thread` replayed on the real code every run.
+  * "drains delivery" is `TaskHandler.flush`: it waits at most 10 s per pending send and then gives up on it (known
+    finding `C09/flush-gives-up-after-10s`); in the model a waited-for send is a completed send.
+  * an instance that was shut down is not started again (`Deep._shutdown`); a new life needs a new `Deep`.
 -/
 import DeepModel.Proofs.Lifecycle
 
@@ -21,15 +29,19 @@ namespace C14
 open Lifecycle Guard Extracted.Guards
 
 /-- obligations over the source as it is now (all decided on the regenerated skeletons) -/
-theorem c14_source_facts : stepsIsolated = true ∧ flushIsolated = true ∧ timerGuarded = true ∧
-    startGuarded = true ∧ shutdownGuarded = true ∧ startedSetLast = true ∧ shutdownClearsStarted = true :=
-  Lifecycle.facts
+theorem c14_source_facts : (stepsIsolated = true ∧ flushIsolated = true ∧ timerGuarded = true ∧
+    startGuarded = true ∧ shutdownGuarded = true ∧ startedSetLast = true ∧ shutdownClearsStarted = true) ∧
+    (restartRefused = true ∧ shutdownMarksShut = true) :=
+  ⟨Lifecycle.facts, Lifecycle.facts2⟩
 
 /-- **start once** — a repeated `start` does nothing. -/
 theorem c14_start_once (d : Deep) : start (start d) = start d := by
   cases hs : d.started with
   | true => rw [start_started d hs, start_started d hs]
-  | false => rw [start_not_started d hs]; exact start_started _ rfl
+  | false =>
+    cases he : d.everShut with
+    | true => rw [start_refused d hs he, start_refused d hs he]
+    | false => rw [start_not_started d hs he]; exact start_started _ rfl
 
 /-- **NO_TRACE leaves the hooks untouched** — with tracing disabled by configuration, after any history the
     process's trace functions are whatever the application itself installed last (`runH`'s ghost component:
@@ -59,8 +71,71 @@ theorem c14_start_shutdown (h1 h2 : Hook) (nt : Bool) (ps pend : List Nat) (f : 
   have := (c14_restore h1 h2 nt ps pend [.start, .shutdown f]).1
   apply this
   simp only [run, List.foldl, step]
-  rw [start_not_started _ (by simp [init])]
+  rw [start_not_started _ (by simp [init]) (by simp [init])]
   rw [shutdown_started f _ rfl]
+
+/-- `sys.settrace` is per thread: the operations of a history are each called on some thread -/
+def SameThread (t0 : Nat) (ops : List (Nat × Op)) : Prop := ∀ p ∈ ops, p.1 = t0
+
+/-- **restore exact, for the thread that starts and stops the agent** (`_partial`: hypothesis `SameThread`) — with
+    one trace slot per thread, for every history whose operations are all called on thread `t0`: whenever the agent
+    is not started, thread `t0`'s trace function and the process-wide threading hook are exactly what the
+    application installed last; and the slots of all other threads are never written. -/
+theorem c14_restore_partial (t0 : Nat) (slots : Nat → Hook) (h2 : Hook) (nt : Bool) (ps pend : List Nat)
+    (ops : List (Nat × Op)) (hsame : SameThread t0 ops) :
+    let m := runMT ops ⟨init (slots t0) h2 nt ps pend, slots⟩
+    let host := (runH (ops.map (·.2)) (init (slots t0) h2 nt ps pend, (slots t0, h2))).2
+    (m.d.started = false → (m.slots t0, m.d.w.thrHook) = host) ∧ (∀ u, u ≠ t0 → m.slots u = slots u) := by
+  have hm : (⟨init (slots t0) h2 nt ps pend, slots⟩ : MT).slots t0 =
+      (⟨init (slots t0) h2 nt ps pend, slots⟩ : MT).d.w.sysHook := by
+    simp [init, (thInit_fields (slots t0) h2).1]
+  obtain ⟨hd, hs⟩ := runMT_same t0 ops hsame _ hm
+  refine ⟨?_, ?_⟩
+  · intro hst
+    rw [hd] at hst
+    have := (c14_restore (slots t0) h2 nt ps pend (ops.map (·.2))).1 hst
+    rw [hs, hd]
+    exact this
+  · -- a thread on which nothing is called keeps its slot
+    intro u hu
+    have gen : ∀ (ops : List (Nat × Op)) (m : MT), (∀ p ∈ ops, p.1 = t0) → (runMT ops m).slots u = m.slots u := by
+      intro ops
+      induction ops with
+      | nil => intro m _; rfl
+      | cons p ops ih =>
+        intro m hsm
+        obtain ⟨t, op⟩ := p
+        have ht : t = t0 := hsm (t, op) (List.mem_cons_self ..)
+        simp only [runMT]
+        rw [ih _ (fun q hq => hsm q (List.mem_cons_of_mem _ hq))]
+        simp only [stepOn]
+        rw [if_neg (by rw [ht]; exact hu)]
+    exact gen ops _ hsame
+
+/-- **without `SameThread` it is false of the code**: `start` on thread 0, `shutdown` on thread 1 (which had its own
+    trace function 7): thread 0 keeps the agent's trace function although the agent reports "not started", and
+    thread 1's own function is replaced by what thread 0 had before the start.  (Known finding
+    `C14/shutdown-on-another-thread`, replayed on the real code.) -/
+theorem c14_other_thread_witness :
+    let m := runMT [(0, .start), (1, .shutdown default)]
+      ⟨init .none .none false [] [], fun u => if u = 1 then .host 7 else .none⟩
+    m.d.started = false ∧ m.slots 0 = .agent ∧ m.slots 1 = .none := by decide
+
+/-- **no second life** — once a started agent has been shut down, no later history starts it again: it stays not
+    started and not polling (`Deep.start` refuses, see `c14_source_facts`), so the hooks stay the application's
+    (`c14_restore`) and nothing is ever delivered to the closed task handler. -/
+theorem c14_no_restart (f : Faults) (d : Deep) (hs : d.started = true) (ops : List Op) :
+    (run ops (shutdown f d).1).started = false ∧ (run ops (shutdown f d).1).pollAlive = false := by
+  have hd : Dead (shutdown f d).1 := by rw [shutdown_started f d hs]; exact ⟨rfl, rfl, rfl⟩
+  have := dead_run ops _ hd
+  exact ⟨this.2.1, this.2.2⟩
+
+/-- one cycle of the trigger handler itself puts back what it found, whatever it remembered from earlier cycles:
+    `TriggerHandler.shutdown ∘ start` on a handler that is not tracing leaves both trace functions as they were. -/
+theorem c14_handler_cycle (w : World) (h : w.tracing = false) :
+    (Extracted.TH.thShutdown (Extracted.TH.thStart false w)).sysHook = w.sysHook ∧
+    (Extracted.TH.thShutdown (Extracted.TH.thStart false w)).thrHook = w.thrHook := by
+  simp [thStart_trace, thShutdown_tracing]
 
 /-- **shutdown completes under any fault subset** — whichever plugins' `shutdown()` raise (either class) and
     whichever pending sends fail, shutting a started agent down does not raise, leaves it not started, the poll
@@ -73,8 +148,10 @@ theorem c14_shutdown_completes (f : Faults) (d : Deep) (hs : d.started = true) :
   rw [shutdown_started f d hs]; simp
 
 /-- **quiet after stop** — once a started agent has been shut down, no later history (config updates from a
-    poll still in flight, further starts/shutdowns, poll ticks) re-arms it: the trigger list every trace event is
-    matched against stays empty, so `trace_call` takes no action. -/
+    poll still in flight, further start/shutdown calls — which `c14_no_restart` shows do nothing —, poll ticks)
+    re-arms it: the trigger list every trace event is matched against stays empty, so `trace_call` takes no action
+    in threads that still carry the trace function.  (This is about an agent that is NOT running; it does not say
+    that a restarted agent is quiet — there is no restarted agent.) -/
 theorem c14_quiet_after (f : Faults) (d : Deep) (hs : d.started = true) (ops : List Op) :
     armed (run ops (shutdown f d).1) = 0 := by
   have hq : Quiet (shutdown f d).1 := by rw [shutdown_started f d hs]; exact thShutdown_quiet d.w
@@ -156,12 +233,12 @@ private def allFail : Faults := { plugin := fun _ => true, task := fun _ => true
 example :
     let d := run [.start, .newConfig [7, 8], .pollTick (some .exc), .shutdown allFail, .newConfig [9],
                   .hostSet (.host 5) .none, .start, .shutdown allFail] (init (.host 1) .none false [10, 11] [1, 2, 3])
-    d.hooks = (.host 5, .none) ∧ d.started = false ∧ armed d = 0 ∧ d.shutCalls = [10, 11, 10, 11] ∧
+    d.hooks = (.host 5, .none) ∧ d.started = false ∧ armed d = 0 ∧ d.shutCalls = [10, 11] ∧
     d.pending = [] := by
   decide
 
-/-- a second cycle restores the hooks of the SECOND cycle: pre-existing A, start, shutdown, the application installs
-    B, start, shutdown — the hooks are B, not the A remembered from the first start (instance of `c14_restore`). -/
+/-- after a shutdown the application installs other trace functions B and calls start/shutdown again (refused): the
+    hooks are B, not the A remembered from the first start (instance of `c14_restore`). -/
 example :
     (run [.start, .shutdown allFail, .hostSet (.host 3) (.host 4), .start, .shutdown allFail]
       (init (.host 1) (.host 2) false [10] [])).hooks = (.host 3, .host 4) ∧
